@@ -26,7 +26,10 @@ RULE = ("exhaustive chains of 0..3 (quick) / 0..4 (thorough) events on a grid {g
         "{2 labels}, sampled chains of 4..6 / 5..6 events, every other chain shuffled; seeded random well-formed "
         "chains; an out-of-domain stream (overlaps, negative gaps at the 0.1 s threshold, negative/sub-ms durations) "
         "and an off-millisecond-grid stream for correspondence only; non-trivial = distinct canonical case in which the model's walk took a branch "
-        "other than `continue`/`none`")
+        "other than `continue`/`none`"
+        "; round 3 (harness/c10_hist.py): grid chains through the registered query function and a query2 statement (5 s); call "
+        "sequences in one process on live objects (the same / ==-equal with other ids and look-alike data / edited in between / "
+        "earlier results overwritten / other pulsetimes), every call judged alone; chains of >= 10 001 events with every gap short")
 
 DATA = [{"app": "a"}, {"app": "b"}, {"n": 1}, {"n": 1.0}, {"n": True}, {}, {"app": "a", "title": "x"}]
 BRANCH = {0: "continue(gap=0)", 1: "negative-gap-merge", 2: "negative-gap-warn-only", 3: "fill:e1-longer,same-data",
